@@ -295,7 +295,7 @@ pub fn run(args: &Args) -> ! {
         finish_replay(e.deadlock.map(|d| Violation { signature: "deadlock".into(), witness: w.clone(), detail: d }), "C28");
     }
     let dl = args.deadline();
-    let (kmax, mut bound, mut pull_modes) = args.tier.pick((3usize, 3usize, vec![true]), (4, 3, vec![true, false]));
+    let (kmax, mut bound, mut pull_modes) = args.tier.pick((3usize, 2usize, vec![true]), (4, 3, vec![true, false]));
     if let Some(b) = args.extra_usize("bound") {
         bound = b;
     }
@@ -356,6 +356,11 @@ pub fn run(args: &Args) -> ! {
     let deadlocking: Mutex<Vec<BTreeSet<usize>>> = Mutex::new(Vec::new());
     let mut capped = false;
     let only: Option<Vec<usize>> = args.extra.get("only").map(|o| o.split(',').filter_map(|n| menu.iter().position(|m| cands[*m].0 == n)).collect());
+    // iterate the bound: all subset sizes with ≤1 preemption first, then with the full bound
+    let bounds: Vec<usize> = if bound > 1 && only.is_none() { vec![1, bound] } else { vec![bound] };
+    let mut bound_completed = 0usize;
+    for bound in bounds {
+    completed_k = 0;
     'k: for k in 1..=kmax {
         let subs = match &only {
             Some(o) => {
@@ -382,7 +387,7 @@ pub fn run(args: &Args) -> ! {
                     bound,
                     args.threads,
                     &dl,
-                    args.tier.pick(20_000, 400_000),
+                    args.tier.pick(4_000, 400_000),
                     !args.extra.contains_key("nocache"),
                     |prefix| {
                         let e = world::run(&scn, prefix, &thread_root(args));
@@ -442,6 +447,11 @@ pub fn run(args: &Args) -> ! {
         }
         completed_k = k;
     }
+    if capped {
+        break;
+    }
+    bound_completed = bound;
+    }
 
     // ---- (3) lock-order monitor verdicts
     let mon = mon.into_inner().unwrap();
@@ -468,8 +478,8 @@ pub fn run(args: &Args) -> ! {
         cands.len(),
         menu.len()
     );
-    rep.exhaustive = !capped && completed_k == kmax && tot.horizon_hits == 0;
-    rep.bounds = json!({"subset_size_target": kmax, "subset_size_completed": completed_k, "preemption_bound": bound, "scenarios": scenarios, "per_scenario_execution_cap": args.tier.pick(20_000, 400_000), "capped": capped, "horizon_hits": tot.horizon_hits});
+    rep.exhaustive = !capped && completed_k == kmax && bound_completed == bound && tot.horizon_hits == 0;
+    rep.bounds = json!({"subset_size_target": kmax, "subset_size_completed_at_last_bound": completed_k, "preemption_bound_completed_for_all_subsets": bound_completed, "preemption_bound": bound, "scenarios": scenarios, "per_scenario_execution_cap": args.tier.pick(4_000, 400_000), "capped": capped, "horizon_hits": tot.horizon_hits});
     rep.set("states", json!(tot.states));
     rep.set("transitions", json!(tot.decisions));
     rep.set("decision_points_pruned_by_state_matching", json!(tot.pruned));
